@@ -30,7 +30,8 @@ pub struct Plan {
 enum Res {
     Push(f64),
     /// `cstart`: the step at which the drain closure was entered (the side swap is behind it)
-    Drain { values: Vec<f64>, rate: f64, len_hint: usize, cstart: u64 },
+    /// `rates_later`: sample_rate() read again after the first value was taken and after the last
+    Drain { values: Vec<f64>, rate: f64, len_hint: usize, cstart: u64, rates_later: (f64, f64) },
     Empty(bool),
     /// the consume closure was made to panic
     DrainPanicked,
@@ -64,19 +65,26 @@ fn do_op(res: &AtomicSamplingReservoir, op: &Op, tid: u32, seq: &mut u32) -> Res
             let mut rate = 0.0;
             let mut len_hint = 0;
             let mut cstart = 0;
+            let mut rates_later = (0.0, 0.0);
             let r = std::panic::catch_unwind(std::panic::AssertUnwindSafe(|| {
                 res.consume(|d| {
                     cstart = dsim::step();
                     dsim::point("c16.in_closure");
                     rate = d.sample_rate();
                     len_hint = d.len();
-                    for v in d {
+                    let mut d = d;
+                    if let Some(v) = d.next() {
                         values.push(v);
                     }
+                    rates_later.0 = d.sample_rate();
+                    for v in d.by_ref() {
+                        values.push(v);
+                    }
+                    rates_later.1 = d.sample_rate();
                 })
             }));
             match r {
-                Ok(()) => Res::Drain { values, rate, len_hint, cstart },
+                Ok(()) => Res::Drain { values, rate, len_hint, cstart, rates_later },
                 Err(p) => {
                     let msg = p.downcast_ref::<String>().cloned().or_else(|| p.downcast_ref::<&str>().map(|s| s.to_string())).unwrap_or_default();
                     if msg.contains("PoisonError") {
@@ -170,6 +178,10 @@ impl Scenario for C16Reservoir {
                 concurrent.push((0..r.range(1, max)).map(|_| Op::Push).collect());
             }
             concurrent.push((0..r.range(1, 3)).map(|_| if r.chance(850) { Op::Drain } else { Op::IsEmpty }).collect());
+            // sometimes a second consumer: consume() calls from two threads must serialise
+            if r.chance(300) {
+                concurrent.push((0..r.range(1, 2)).map(|_| Op::Drain).collect());
+            }
         }
         Plan { capacity, sequential, concurrent }
     }
@@ -298,7 +310,10 @@ fn check(plan: &Plan, h: &[Ev]) -> Option<Violation> {
                     return violation("is-empty-wrong", format!("is_empty() = {} with {} values pushed since the last drain", b, pending.len()));
                 }
             }
-            Res::Drain { values, rate, len_hint, .. } => {
+            Res::Drain { values, rate, len_hint, rates_later, .. } => {
+                if rates_later.0.to_bits() != rate.to_bits() || rates_later.1.to_bits() != rate.to_bits() {
+                    return violation("sample-rate-unstable", format!("one drain reported sample rate {} before iterating, {} after the first value and {} after the last ({} values yielded)", rate, rates_later.0, rates_later.1, values.len()));
+                }
                 if values.len() > cap {
                     return violation("over-capacity", format!("drain yielded {} values, capacity {}", values.len(), cap));
                 }
@@ -333,7 +348,10 @@ fn check(plan: &Plan, h: &[Ev]) -> Option<Violation> {
     let conc_pushes = conc.iter().filter(|e| matches!(e.res, Res::Push(_))).count();
     let mut prev_drain_inv: u64 = drains.iter().filter(|d| d.phase == 0).map(|d| d.inv).max().unwrap_or(0);
     let mut all_conc_yield: Vec<u64> = vec![];
-    let conc_drains: Vec<&&Ev> = conc.iter().filter(|e| matches!(e.res, Res::Drain { .. })).collect();
+    // (in the order in which the drains actually took place: consume() calls from two threads are
+    // serialised by the reservoir's swap lock, and the closure runs under it)
+    let mut conc_drains: Vec<&&Ev> = conc.iter().filter(|e| matches!(e.res, Res::Drain { .. })).collect();
+    conc_drains.sort_by_key(|e| if let Res::Drain { cstart, .. } = &e.res { if *cstart == 0 { e.ret } else { *cstart } } else { e.ret });
     // Structural signature of the known defect (push || consume): a *culprit* push is one that may
     // have read which side is active before some drain swapped the sides and that finished after
     // that drain began (invoked before the drain's closure was entered, returned after the drain
@@ -346,7 +364,10 @@ fn check(plan: &Plan, h: &[Ev]) -> Option<Violation> {
     let overlaps_any_drain = |pe: &Ev| culprit(pe) || h.iter().any(|q| culprit(q) && q.inv < pe.ret && q.ret > pe.inv);
     let some_push_overlaps = |_d: &Ev| any_culprit;
     for d in &conc_drains {
-        if let Res::Drain { values, rate, len_hint, .. } = &d.res {
+        if let Res::Drain { values, rate, len_hint, rates_later, .. } = &d.res {
+            if rates_later.0.to_bits() != rate.to_bits() || rates_later.1.to_bits() != rate.to_bits() {
+                return violation("sample-rate-unstable", format!("one drain reported sample rate {} before iterating, {} after the first value and {} after the last ({} values yielded)", rate, rates_later.0, rates_later.1, values.len()));
+            }
             if values.len() > cap {
                 return violation("over-capacity", format!("drain yielded {} values, capacity {}", values.len(), cap));
             }
